@@ -298,6 +298,7 @@ class CallMixin:
         return out
 
     def apply_contract(self, st, fr, c, env, fv):
+        self._site_node = getattr(self, '_current_call_node', None)    # before specs are evaluated (they contain calls)
         if c.assumed:
             self.stats['assumed_contracts'].add(c.qual)
         n = fr.call_counter[0]
@@ -391,21 +392,23 @@ class CallMixin:
 
     def call_ordinal(self, fr, short):
         """Ordinal of the call currently being applied among the calls to `short` in the function source."""
-        node = getattr(self, '_current_call_node', None)
+        node = getattr(self, '_site_node', None)
         fn = getattr(fr, 'fnode', None)
         if node is None or fn is None:
             return 0
-        k = 0
         name = short.split('.')[-1]
+        calls = []
         for n in ast.walk(fn):
             if isinstance(n, ast.Call):
                 f = n.func
                 fname = f.attr if isinstance(f, ast.Attribute) else (f.id if isinstance(f, ast.Name) else None)
                 if fname == name:
-                    if n is node:
-                        return k
-                    k += 1
-        return 0
+                    calls.append(n)
+        calls.sort(key=lambda n: (n.lineno, n.col_offset))      # source order
+        for k, n in enumerate(calls):
+            if n is node:
+                return k
+        return -1
 
     def havoc_modifies(self, st, c, sf, pre_heap):
         """modifies entries: 'expr.field' (one location) | ('Class.field', 'lambda r: pred') | 'alloc'."""
